@@ -57,6 +57,7 @@ type fnInfo struct {
 	nregs int
 	// failBlock[i] = block i contains a call to vnd.Fail
 	failBlock []bool
+	obligFn   bool // every symbolic branch inside is a property obligation (harness functions named verifCheck*)
 	ninstr    int
 }
 
@@ -92,6 +93,7 @@ func (m *Machine) info(fn *ssa.Function) *fnInfo {
 		n++
 	}
 	fi.failBlock = make([]bool, len(fn.Blocks))
+	fi.obligFn = strings.HasPrefix(fn.Name(), "verifCheck")
 	for bi, b := range fn.Blocks {
 		for _, ins := range b.Instrs {
 			fi.ninstr++
@@ -102,6 +104,8 @@ func (m *Machine) info(fn *ssa.Function) *fnInfo {
 			if c, ok := ins.(*ssa.Call); ok {
 				if callee := c.Call.StaticCallee(); callee != nil && callee.Pkg != nil &&
 					strings.HasSuffix(callee.Pkg.Pkg.Path(), "/internal/vnd") && callee.Name() == "Fail" {
+					fi.failBlock[bi] = true
+				} else if callee != nil && strings.HasPrefix(callee.Name(), "verifFail") {
 					fi.failBlock[bi] = true
 				}
 			}
@@ -220,8 +224,14 @@ func (m *Machine) execFunction(fn *ssa.Function, args []Value, env []Value, call
 	copy(fr.regs, args)
 	copy(fr.regs[len(args):], env)
 	m.depth++
+	if debugReplay {
+		m.dbgStack = append(m.dbgStack, fn.String())
+	}
 	defer func() {
 		m.depth--
+		if debugReplay {
+			m.dbgStack = m.dbgStack[:len(m.dbgStack)-1]
+		}
 		if r := recover(); r != nil {
 			gp, ok := r.(*goPanicV)
 			if !ok || (len(fr.defers) == 0) {
@@ -351,7 +361,7 @@ func (m *Machine) run(fr *frame, start *ssa.BasicBlock) Value {
 				continue
 			case *ssa.If:
 				c := m.get(fr, x.Cond).(*Term)
-				oblig := fr.info.failBlock[b.Succs[0].Index] || fr.info.failBlock[b.Succs[1].Index]
+				oblig := fr.info.obligFn || fr.info.failBlock[b.Succs[0].Index] || fr.info.failBlock[b.Succs[1].Index]
 				if m.branchAt(c, oblig, x) {
 					next = b.Succs[0]
 				} else {
